@@ -52,25 +52,42 @@ REG.call_hooks.insert(0, chain_join_hook)
 
 
 def stage_link(eng, st, res):
-    """Linking lemmas between the stage contracts, added after tokenize() has been applied in tex.read:
+    """Linking facts between the stage contracts, added after tokenize() has been applied in tex.read:
 
-    M4  (trusted, induction on the number of tokens): tokens that are increasing slices of the characters with
-        only Ignored/Invalid characters in the gaps concatenate to the source when it has no such characters.
-    WFT (assumed here, bounded-checked by the C19 sweep): the structural tokens carry their literal texts and,
-        for a source without NUL/DEL, a backslash token is followed by a name token."""
+    M4   (trusted, induction on the number of tokens): tokens that are increasing slices of the characters with
+         only Ignored/Invalid characters in the gaps concatenate to the source when it has no such characters.
+    NOIGN (definition): noign(s) means that no character of s has category Ignored or Invalid; categorize's clause
+         `only-NUL-and-DEL-are-ignorable` proves that these are exactly NUL and DEL.
+    WFT  (proved here): the readers' precondition on the token stream is an obligation discharged from tokenize's
+         postconditions `token-shapes` and `backslash-is-followed-by-a-name` (contracts/wft_c.py)."""
     if res.a.get('produced_by') != 'tokens.tokenize':
         return
     T = st.heap[res.a['ref']]['Q'].z
     chars = res.a['input']
-    src = None
+    src, cbuf = None, None
     while chars is not None and src is None:
         src = chars.a.get('source')
+        if cbuf is None and chars.ty == 'obj':
+            cbuf = chars
         chars = chars.a.get('input')
     if src is None:
         return
     st.fact(CLEANSRC(T) == NOIGN(src))
     st.fact(Implies(NOIGN(src), JT(sl(T, 0, Length(T))) == src))
-    eng.assume_clause(st, [QBool(BoolVal(True), IntVal(0), Length(T), lambda k, T=T: wft_z(eng, T, k))])
+    wq = QBool(BoolVal(True), IntVal(0), Length(T), lambda k, T=T: wft_z(eng, T, k))
+    if cbuf is None or 'contracts.wft_c' not in __import__('sys').modules:
+        eng.assume_clause(st, [wq])        # (only without the WFT contracts loaded: the link is then an assumption)
+        st.ghost['$assumed-wft'] = True
+        return
+    from .tokens_c import CNT
+    cc = eng.repo.enum('CC')
+    C = st.heap[cbuf.a['ref']]['Q'].z
+    st.fact(NOIGN(src) == (CNT(C, cc['Ignored'], 0, Length(C)) + CNT(C, cc['Invalid'], 0, Length(C)) == 0))
+    from .reader_c import nw_literals
+    st.fact(And(*nw_literals(eng)))
+    eng.oblige('%s@stage-link.token-stream' % (eng.cur.key if eng.cur else 'tex.read'), st, eng.goal_of([wq], st),
+               kind='P', props=['C08', 'C01', 'C02', 'C06'])
+    eng.assume_clause(st, [wq])
 
 
 from .utils_c import STAGE_HOOKS
@@ -89,6 +106,11 @@ for _case, _ty, _src in (('str', 'str', 'tex'), ('chunks', 'seq[str]', 'joinstr(
                  P(['C08'], 'non-blank',
                    'tolerance == 0 and noign(result[1]) and CLN(%s.contents) ==> NW(SL(%s.contents)) == NW(result[1])'
                    % (_ROOT, _ROOT))]))
+
+import sys as _sys
+if 'contracts.wft_c' in _sys.modules:      # tokshape is unfolded where the readers' precondition is established
+    for _c in REG.contracts['tex.read']:
+        _c.init_hooks.append(_sys.modules['contracts.wft_c'].unfold_shape)
 
 # the root environment prints its contents only
 REG.add(Contract('data.TexEnv.__str__', case='root', types={'self': 'UExpr:data.TexEnv'}, result='str',
